@@ -64,119 +64,11 @@ def run(ctx):
     ctx.assume("A1")
     ctx.decline("acceptance over the whole language of names (would need running the matcher on enumerated certificates and hosts); each rule of the statement is tied to one structural fact of the matcher instead")
 
-    # ------------------------------------------------------------------ R1 pattern construction
-    R1 = ctx.rule("C08-R1", "pattern construction in _dnsname_match: anchored \\A...\\Z, labels joined by an escaped dot, only the left-most label may contribute a non-literal, the whole-label wildcard is a repeat (min 1) of a class excluding '.', a partial wildcard's class excludes '.', every other label goes through re.escape, matching ignores case", "E7 regex structure + E6")
-    dm = m.func(f"{MH}._dnsname_match")
-    comp = [c for c in astq.calls(dm.node) if astq.call_text(c) == "re.compile"]
-    ctx.sites(R1, len(comp), 1, "re.compile in _dnsname_match")
-    c = comp[0]
-    parts = _flatten_add(c.args[0])
-    consts = []
-    join = None
-    for p in parts:
-        if isinstance(p, ast.Call) and isinstance(p.func, ast.Attribute) and p.func.attr == "join":
-            join = p
-        else:
-            try:
-                consts.append(fold.ev(p, dm.module))
-            except Exception:
-                consts.append(None)
-    ok = len(parts) == 3 and join is parts[1] and consts == [r"\A", r"\Z"]
-    ctx.ob(R1, dm.qual, f"pattern is \\A + join + \\Z: `{astq.text(c.args[0])}`", ok,
-           "" if ok else "the assembled pattern is not anchored at both ends with \\A and \\Z: a certificate name could match a prefix/suffix of the host, or a trailing newline", node=c)
-    sep = None
-    if join is not None:
-        try:
-            sep = fold.ev(join.func.value, dm.module)
-        except Exception:
-            sep = None
-    ctx.ob(R1, dm.qual, "labels are joined by an escaped dot", sep == r"\.", f"separator {sep!r}", node=c)
-    flags = astq.text(c.args[1]) if len(c.args) > 1 else astq.text(astq.kwarg(c, "flags")) if astq.kwarg(c, "flags") is not None else ""
-    ctx.ob(R1, dm.qual, "case-insensitive matching", "IGNORECASE" in flags or flags.endswith("re.I"), f"flags `{flags}`", node=c)
-    listname = astq.text(join.args[0]) if join is not None and join.args else None
-    appends = [x for x in astq.calls(dm.node) if isinstance(x.func, ast.Attribute) and x.func.attr == "append" and astq.text(x.func.value) == listname]
-    ctx.sites(R1, len(appends), 3, "fragment appends")
-    # which local is the left-most label / the remaining labels
-    leftmost = None
-    for n in astq.walk_fn(dm.node):
-        if isinstance(n, ast.Assign) and isinstance(n.value, ast.Subscript) and astq.text(n.value.slice) == "0" and isinstance(n.targets[0], ast.Name):
-            leftmost = n.targets[0].id
-    if leftmost is None:
-        raise AnalysisError("_dnsname_match: left-most label variable not found")
-    for a in appends:
-        kind, info = _classify_fragment(a.args[0], fold, dm.module)
-        in_loop = astq.enclosing(a, (ast.For, ast.While))
-        if in_loop is not None:
-            ok = kind == "literal"
-            ctx.ob(R1, dm.qual, f"remaining labels: `{astq.text(a)}` is a literal", ok,
-                   "" if ok else "a label other than the left-most can contribute a wildcard", node=a)
-            continue
-        if kind == "literal":
-            ctx.ob(R1, dm.qual, f"`{astq.text(a)}` is a literal of the left-most label", info == leftmost, node=a)
-        elif kind == "pattern":
-            ok, why = _dotless_repeat(info, 1)
-            g = astq.enclosing(a, ast.If)
-            guard = astq.text(g.test).replace("'", '"') if g is not None else ""
-            ok_guard = guard == f'{leftmost} == "*"'
-            ctx.ob(R1, dm.qual, f"whole-label wildcard fragment {info!r} matches one non-empty dotless label", ok and ok_guard,
-                   why if not ok else ("" if ok_guard else f"guard is `{guard}`"), node=a)
-        elif kind == "escaped-with-replacement":
-            src, what, repl = info
-            ok, why = _dotless_repeat(repl, 0)
-            ok2 = src == leftmost and what == r"\*"
-            ctx.ob(R1, dm.qual, f"partial wildcard: escaped left-most label with \\* -> {repl!r}", ok and ok2, why, node=a)
-        else:
-            ctx.ob(R1, dm.qual, f"fragment `{info}` recognised", False, "unrecognised pattern fragment", node=a)
-    # a label that is only "*" must have its own fragment (min 1); the partial-wildcard expansion (min 0) must not see it
-    whole = [a for a in appends if _classify_fragment(a.args[0], fold, dm.module)[0] == "pattern" and _dotless_repeat(_classify_fragment(a.args[0], fold, dm.module)[1], 1)[0]
-             and astq.enclosing(a, ast.If) is not None and astq.text(astq.enclosing(a, ast.If).test).replace("'", '"') == f'{leftmost} == "*"']
-    partial = [a for a in appends if _classify_fragment(a.args[0], fold, dm.module)[0] == "escaped-with-replacement"]
-    ok = bool(whole)
-    ctx.ob(R1, dm.qual, "a whole-label wildcard has its own fragment matching a non-empty label", ok,
-           "" if ok else "a bare `*` label falls into the partial-wildcard expansion, whose class may match nothing: `*.a.b` accepts the host `.a.b`", node=dm.node)
-    for a in partial:
-        okp = bool(whole) and any(astq.in_body_of(a, astq.enclosing(w, ast.If), "orelse") for w in whole)
-        ctx.ob(R1, dm.qual, "the partial-wildcard expansion is only reached when the label is not a bare `*`", okp, node=a)
-    rets = [r for r in astq.walk_fn(dm.node) if isinstance(r, ast.Return) and isinstance(r.value, ast.Call) and isinstance(r.value.func, ast.Attribute) and r.value.func.attr in ("match", "fullmatch", "search")]
-    ctx.ob(R1, dm.qual, "the compiled pattern is applied to the whole hostname", bool(rets) and rets[0].value.func.attr in ("match", "fullmatch") and astq.text(rets[0].value.args[0]) == "hostname")
-    # fast path without wildcard: exact case-insensitive equality
-    fast = [r for r in astq.walk_fn(dm.node) if isinstance(r, ast.Return) and "lower()" in astq.text(r)]
-    ok = any(astq.text(r.value) in ("bool(dn.lower() == hostname.lower())", "dn.lower() == hostname.lower()") for r in fast)
-    g = astq.enclosing(fast[0], ast.If) if fast else None
-    okg = False
-    if g is not None and isinstance(g.test, ast.UnaryOp) and isinstance(g.test.op, ast.Not) and isinstance(g.test.operand, ast.Name):
-        srcs_ = astq.assigned_values(dm.node, g.test.operand.id)
-        okg = any(isinstance(x, ast.Call) and isinstance(x.func, ast.Attribute) and x.func.attr == "count" for x in srcs_)
-    ctx.ob(R1, dm.qual, "without wildcard: exact case-insensitive equality", ok and okg)
+    # ------------------------------------------------------------------ R1 / R2 / R3 on effect rows (c08_pattern.py)
+    from . import c08_pattern
 
-    # ------------------------------------------------------------------ R2 wildcard budget / R3 IDN
-    R2 = ctx.rule("C08-R2", "more than max_wildcards (default 1) wildcards in the left-most label raise; wildcards are counted in the left-most label only", "E5")
-    d = dm.defaults().get("max_wildcards")
-    ctx.ob(R2, dm.qual, "max_wildcards defaults to 1", isinstance(d, ast.Constant) and d.value == 1)
-    cnt = [n for n in astq.walk_fn(dm.node) if isinstance(n, ast.Assign) and isinstance(n.value, ast.Call) and isinstance(n.value.func, ast.Attribute) and n.value.func.attr == "count"]
-    ok = bool(cnt) and astq.text(cnt[0].value).replace("'", '"') == f'{leftmost}.count("*")'
-    ctx.ob(R2, dm.qual, "wildcards counted in the left-most label", ok)
-    wname = astq.text(cnt[0].targets[0]) if cnt else "wildcards"
-    guards = [n for n in astq.walk_fn(dm.node) if isinstance(n, ast.If) and astq.text(n.test) == f"{wname} > max_wildcards"]
-    ok = bool(guards) and astq.all_paths_end_in(guards[0].body, lambda s: isinstance(s, ast.Raise) and s.exc is not None and "CertificateError" in astq.text(s.exc))
-    ctx.ob(R2, dm.qual, "too many wildcards raise CertificateError", ok)
-    if guards and comp:
-        ctx.ob(R2, dm.qual, "the budget is enforced before any pattern is built", guards[0].lineno < comp[0].lineno)
-    R3 = ctx.rule("C08-R3", "IDN rule: a left-most label or hostname starting with xn-- gets no wildcard expansion inside the label (the label is escaped)", "E5")
-    idn = [n for n in astq.walk_fn(dm.node) if isinstance(n, ast.If) and "xn--" in astq.text(n.test)]
-    ctx.sites(R3, len(idn), 1, "xn-- test")
-    for n in idn:
-        tnode, then_b, else_b = astq.norm_if(n)
-        t = astq.text(tnode).replace("'", '"')
-        ok = f'{leftmost}.startswith("xn--")' in t and 'hostname.startswith("xn--")' in t and " or " in t
-        body_app = [x for x in astq.calls(ast.Module(body=then_b, type_ignores=[])) if isinstance(x.func, ast.Attribute) and x.func.attr == "append"]
-        okb = len(body_app) == 1 and _classify_fragment(body_app[0].args[0], fold, dm.module) == ("literal", leftmost)
-        ctx.ob(R3, dm.qual, f"`{t}` -> escaped literal", ok and okb, "" if ok and okb else "a wildcard embedded in an A-label would be expanded", node=n)
-        # it must be tested before the partial-wildcard expansion
-        part = [a for a in appends if _classify_fragment(a.args[0], fold, dm.module)[0] == "escaped-with-replacement"]
-        if part:
-            in_else = any(x is part[0] for s_ in else_b for x in ast.walk(s_))
-            ctx.ob(R3, dm.qual, "partial-wildcard expansion only in the non-IDN branch", in_else, node=part[0])
+    c08_pattern.run(ctx)
+    dm = m.func(f"{MH}._dnsname_match")
 
     # ------------------------------------------------------------------ R4 dispatch table
     R4 = ctx.rule("C08-R4", "dispatch: DNS entries are consulted only when the host is not an IP, IP entries only when it is, commonName only when enabled and the host is not an IP and no SAN of either kind was seen; every non-matching path raises CertificateError", "E5 on match_hostname")
